@@ -394,8 +394,11 @@ class Engine:
         row = self.ro.execute("SELECT * FROM queue_messages WHERE id=?", (row_id,)).fetchone()
         if row is None:
             return None
-        # what poll_one's claim does to the row
-        self.ro.execute("UPDATE queue_messages SET attempts = attempts + 1, version = version + 1 WHERE id=?", (row_id,))
+        # what poll_one's claim does to the row (a lock left by a dead worker has lapsed by now)
+        from datetime import UTC, datetime, timedelta
+
+        self.ro.execute("UPDATE queue_messages SET attempts = attempts + 1, version = version + 1, locked_until = ? WHERE id=?",
+                        ((datetime.now(UTC) + timedelta(hours=1)).isoformat(), row_id))
         m = deserialize_message(row["message_type"], row["payload"])
         m.message_id = str(row_id)
         m.attempts = row["attempts"] + 1
@@ -477,6 +480,10 @@ class Engine:
 
     def sweep(self) -> None:
         self.processor.run_recovery()
+
+    def locked_ids(self) -> set[int]:
+        """rows claimed by a worker that never acknowledged them (the dead worker's lock has not lapsed yet)"""
+        return {r[0] for r in self.ro.execute("SELECT id FROM queue_messages WHERE locked_until IS NOT NULL").fetchall()}
 
     def expire_locks(self) -> None:
         self.ro.execute("UPDATE queue_messages SET locked_until = NULL")
